@@ -40,6 +40,21 @@ def load_baseline(prop):
     return set(json.load(open(p))['discharged_clause_keys'])
 
 
+def task_counts(recs):
+    out = {}
+    for r in recs:
+        k = '%s|%s|%s' % (r['_task']['unit'], r['_task']['case'], r['_task']['mode'])
+        out[k] = out.get(k, 0) + 1
+    return out
+
+
+def load_baseline_task_counts(prop):
+    p = os.path.join(HERE, 'baseline', prop + '.json')
+    if not os.path.exists(p):
+        return {}
+    return json.load(open(p)).get('task_obligations', {})
+
+
 def load_baseline_vcs(prop):
     """hashes of the verification conditions (hypotheses + goal) that were discharged on the unchanged tree"""
     p = os.path.join(HERE, 'baseline', prop + '.json')
@@ -57,12 +72,16 @@ def write_baseline(prop, all_recs):
                'discharged_clause_keys': keys,
                'comment_vc_hashes': 'sha1 of (hypotheses, goal) of every non-trivial obligation discharged on the unchanged tree: when the IDENTICAL formula gets no '
                'solver verdict in a later run (load, seed) that is reported as UNDECIDED (exit 2) after one retry with a larger budget, never as a violation',
-               'discharged_vc_hashes': sorted({r['vc_hash'] for r in all_recs if r['verdict'] == 'proved' and r.get('vc_hash')})},
+               'discharged_vc_hashes': sorted({r['vc_hash'] for r in all_recs if r['verdict'] == 'proved' and r.get('vc_hash')}),
+               'comment_task_obligations': 'number of obligations each task (unit|case|mode) generated on the unchanged tree: a clean run that generates fewer than half '
+               'of them for some task has silently lost coverage and is a checker error (exit 3)',
+               'task_obligations': task_counts(all_recs)},
               open(os.path.join(HERE, 'baseline', prop + '.json'), 'w'), indent=0)
     print('baseline/%s.json: %d clause keys' % (prop, len(keys)))
 
 
 def finish(prop, tier, seed, units, results, wall, verbose=False, partial=False, baseline_out=False):
+    tier_of_run = tier
     from . import replay as RP
     known = load_known()
     findings = [f for f in known.get('findings', []) if f['property'] == prop]
@@ -191,6 +210,14 @@ def finish(prop, tier, seed, units, results, wall, verbose=False, partial=False,
             lines.append('CHECKER-ERROR property=%s unit=%s case=%s mode=%s explored no feasible path (vacuous precondition?)'
                          % (prop, r['unit'], r['case'], r['mode']))
             exit_code = 3
+    if exit_code == 0 and not partial:
+        # coverage guard: on a run that would otherwise be clean, every task must have generated at least half of the obligations it
+        # generated when the baseline was written (a silent loss of paths must not look like success)
+        now = task_counts(all_recs)
+        for k, n0 in sorted(load_baseline_task_counts(prop).items()):
+            if n0 >= 10 and now.get(k, 0) * 2 < n0 and tier_of_run == 'quick':
+                lines.append('CHECKER-ERROR property=%s task %s generated %d obligations, %d on the unchanged tree when the baseline was written: coverage lost' % (prop, k, now.get(k, 0), n0))
+                exit_code = 3
     kf_ids = {id(rec) for _, rec in known_seen}
     proof_recs = [r for r in proof_recs if id(r) not in kf_ids]          # obligations of recorded findings are listed separately
     if baseline_out and not partial:
